@@ -157,12 +157,6 @@ theorem fair_schedule_ends {g : Graph} {lim : Option Nat} (hg : GraphOK g) (hl :
 
 /-! ### visit order ⊇ prerequisite order, transitively, in both directions -/
 
-/-- `d` is a transitive prerequisite of `v` along a chain whose intermediate vertices are visited (not skipped by the
-root selection).  Forward walk: `v` depends on … depends on `d`; reverse walk: `d` depends on … depends on `v`. -/
-inductive PreChain (g : Graph) : V → V → Prop
-  | one {d v : V} : d ∈ g.pre v → PreChain g d v
-  | cons {d u v : V} : PreChain g d u → g.skip u = false → u ∈ g.pre v → PreChain g d v
-
 /-- **the visit order extends the (transitive) prerequisite order**: when `v`'s visitor is entered, the visitor of every
 transitive prerequisite `d` of `v` has already returned — `d`'s return lies further down the log.  `Graph.pre` is the
 dependency relation in a forward walk and its converse in a reverse walk (`collect_walk_graph`), so this is
